@@ -140,6 +140,8 @@ impl crux_core::App for DApp {
 #[derive(Clone, Debug, PartialEq, Eq, Serialize, Deserialize)]
 pub enum DStep {
     Event(DEvent),
+    /// `n` directly held timer commands, each answered and cleared between two polls
+    DirectTimers { n: u8, at: bool },
     /// answer the k-th outstanding request (modulo), payload chosen by its type
     Answer { k: u8, status: u16, resp_headers: Vec<(String, String)>, value: Vec<u8> },
 }
@@ -224,6 +226,15 @@ pub fn trial(steps: &[DStep]) -> Result<Vec<Vec<u8>>, Violation> {
         let clock0 = crate::seams::CLOCK_CALLS.load(Ordering::SeqCst);
         let rnd0 = crate::seams::GETRANDOM_CALLS.load(Ordering::SeqCst);
         let res = match st {
+            DStep::DirectTimers { n, at } => {
+                let mut d = String::new();
+                for i in 0..*n {
+                    d.push_str(&crate::cap::time::direct_answer_and_clear(u32::from(i) + 1, *at));
+                    d.push(';');
+                }
+                out.push(d.into_bytes());
+                continue;
+            }
             DStep::Event(ev) => {
                 let bytes = bincode_opts().serialize(ev).unwrap();
                 catch(|| bridge.process_event(&bytes))
@@ -400,6 +411,13 @@ impl Check for C11Check {
         for _ in 0..4 {
             steps.push(DStep::Answer { k: rng.below(250) as u8, status: 200, resp_headers: gen_header_set(rng, 3), value: vec![1, 2, 3] });
         }
+        if rng.chance(1, 4) {
+            // both things a timer waits on become ready between two polls: which one it reports must not
+            // depend on anything but the history
+            let at = rng.chance(1, 2);
+            let pos = rng.usize_below(steps.len() + 1);
+            steps.insert(pos, DStep::DirectTimers { n: rng.range(1, 6) as u8, at });
+        }
         let mut eq_cases = vec![];
         for _ in 0..rng.range(1, 3) {
             let nh = rng.range(0, 5) as usize;
@@ -545,6 +563,7 @@ impl Check for C11Check {
                     DStep::Event(DEvent::Timer { .. }) => 3,
                     DStep::Event(_) => 4,
                     DStep::Answer { k, .. } => 1000 + u64::from(*k % 4),
+                    DStep::DirectTimers { n, at } => 2000 + u64::from(*n) + if *at { 10 } else { 0 },
                 },
             );
         }
